@@ -26,7 +26,7 @@ func (vc *VC) specEnv(fr *Frame, st, old *State, extra map[string]Val) *SpecEnv 
 		} else if fr.fn.Origin() != nil && fr.fn.Origin().Pkg != nil {
 			env.pkg = fr.fn.Origin().Pkg.Pkg
 		}
-		for k, v := range fr.locals {
+		for k, v := range st.locals {
 			if v.Sort == "addr" && v.Addr != nil {
 				lv := vc.load(st, v.Addr)
 				env.vars[k] = lv
@@ -38,6 +38,25 @@ func (vc *VC) specEnv(fr *Frame, st, old *State, extra map[string]Val) *SpecEnv 
 			env.vars[k] = v
 		}
 		for k, v := range fr.idxVals {
+			env.vars[k] = v
+		}
+	}
+	for k, v := range extra {
+		env.vars[k] = v
+	}
+	return env
+}
+
+// specEnvCur: like specEnv, but source-level locals (current values of reassigned parameters included)
+// take precedence over the entry values of parameters. Used for loop invariants and call-site assertions.
+func (vc *VC) specEnvCur(fr *Frame, st, old *State, extra map[string]Val) *SpecEnv {
+	env := vc.specEnv(fr, st, old, nil)
+	if fr != nil {
+		for k, v := range st.locals {
+			if v.Sort == "addr" && v.Addr != nil {
+				env.vars[k] = vc.load(st, v.Addr)
+				continue
+			}
 			env.vars[k] = v
 		}
 	}
@@ -920,6 +939,28 @@ func (vc *VC) applySpecFun(env *SpecEnv, sf *SpecFun, args []Expr, recv *Val) Va
 		if !vc.declared[fname] {
 			vc.declared[fname] = true
 			vc.emit(fmt.Sprintf("(declare-fun %s (%s) %s)", fname, strings.Join(sorts, " "), vc.sortOf(rt)))
+			if len(sorts) == 3 && strings.HasPrefix(sorts[0], "(Array Int ") && sorts[1] == "Int" && sorts[2] == "Int" {
+				vc.sliceUFs = append(vc.sliceUFs, [2]string{fname, sorts[0]})
+			}
+			// frame axiom: a function of a slice depends only on the elements inside the slice
+			// (written for single-element stores so that E-matching can apply it along store chains)
+			for i := 0; i+2 < len(sorts); i++ {
+				if strings.HasPrefix(sorts[i], "(Array Int ") && sorts[i+1] == "Int" && sorts[i+2] == "Int" {
+					var decl, a1, a2 []string
+					for j, so := range sorts {
+						decl = append(decl, fmt.Sprintf("(x%d %s)", j, so))
+						if j == i {
+							a1 = append(a1, fmt.Sprintf("(store x%d k v)", j))
+						} else {
+							a1 = append(a1, fmt.Sprintf("x%d", j))
+						}
+						a2 = append(a2, fmt.Sprintf("x%d", j))
+					}
+					es := arrayElemSort(sorts[i])
+					vc.emit(fmt.Sprintf("(assert (forall (%s (k Int) (v %s)) (! (=> (or (< k x%d) (>= k (+ x%d x%d))) (= (%s %s) (%s %s))) :pattern ((%s %s)))))",
+						strings.Join(decl, " "), es, i+1, i+1, i+2, fname, strings.Join(a1, " "), fname, strings.Join(a2, " "), fname, strings.Join(a1, " ")))
+				}
+			}
 		}
 		if len(terms) == 0 {
 			return vc.termVal(fname, rt)
@@ -947,4 +988,37 @@ func (vc *VC) applySpecFun(env *SpecEnv, sf *SpecFun, args []Expr, recv *Val) Va
 		r.Typ = vc.resolveType(&fenv, sf.RetTyp)
 	}
 	return r
+}
+
+// predeclareSliceUFs declares every uninterpreted spec function of a single slice up front, so that
+// copy() can state that such functions (which depend on contents only) agree on copied ranges.
+func (vc *VC) predeclareSliceUFs(pkg *types.Package) {
+	for _, sf := range vc.eng.specs.Specs {
+		if sf.Body != nil || len(sf.Params) != 1 || !strings.HasPrefix(sf.PTypes[0], "[]") {
+			continue
+		}
+		st := &State{pc: "true", heap: map[string]string{}}
+		env := &SpecEnv{vc: vc, pkg: pkg, st: st, old: st, vars: map[string]Val{}}
+		if sf.Pkg != "" {
+			if p := vc.eng.pkgByPath(sf.Pkg); p != nil {
+				env.pkg = p
+			}
+		}
+		if env.pkg == nil {
+			continue
+		}
+		t := vc.resolveTypeQuiet3(env, sf.PTypes[0])
+		if t == nil {
+			continue
+		}
+		env.vars["$x"] = Val{Sl: &SliceVal{"0", "0", "0", "0"}, Typ: t}
+		vc.applySpecFun(env, sf, []Expr{&EIdent{Name: "$x"}}, nil)
+	}
+}
+
+func (vc *VC) resolveTypeQuiet3(env *SpecEnv, name string) types.Type {
+	n := len(vc.fatal)
+	t := vc.resolveType(env, name)
+	vc.fatal = vc.fatal[:n]
+	return t
 }
